@@ -27,3 +27,86 @@ From RbxVerif Require Import UidGen UidGenFacts.
 Theorem C12_now_distinct_any_schedule : forall sched ctr,
   ctr < U32 -> N.of_nat (length sched) <= U32 -> NoDup (List.map snd (run_sched sched ctr)).
 Proof. exact now_distinct_any_schedule. Qed.
+
+(* ==== file decoding (binary reader model, Proofs/BinFinish.v): finish applies WeakDom::insert's rule — an instance keeps its
+   UniqueId (and its whole property table) exactly unless an earlier-built instance already holds that id, in which case it gets
+   the fresh one; the ids other than the fresh one are pairwise distinct in every decoded DOM.  The model draws ONE fresh id per
+   decode (dp_fresh_uid), so full uniqueness is stated for at most one holder of the fresh id; the implementation draws a new
+   UniqueId::now() per collision (C12_now_distinct_any_schedule) *)
+From RbxVerif Require Import Bytes Value CodecDom BinValues BinFile BinFinish.
+Open Scope N_scope.
+
+Theorem C12_bin_uid_pass_kept :
+  forall (D : Z -> dinst) (p : dec_params) (l1 : list (Z * N)) (k : Z) (par : N) 
+         (l2 : list (Z * N)) (uids : list value),
+       (forall u : value, orig_uid D k = Some u -> ~ In u (uid_state D p uids l1)) ->
+       exists uids' : list value,
+         uid_pass D p uids (l1 ++ (k, par) :: l2) =
+         uid_pass D p uids l1 ++
+         {|
+           i_ref := di_label (D k);
+           i_parent := par;
+           i_class := di_class (D k);
+           i_name := di_name (D k);
+           i_props := collect_props (di_props (D k))
+         |} :: uid_pass D p uids' l2.
+Proof. exact uid_pass_kept. Qed.
+
+Theorem C12_bin_uid_pass_replaced :
+  forall (D : Z -> dinst) (p : dec_params) (l1 : list (Z * N)) (k : Z) (par : N) 
+         (l2 : list (Z * N)) (uids : list value) (u : value),
+       orig_uid D k = Some u ->
+       In u (uid_state D p uids l1) ->
+       exists uids' : list value,
+         uid_pass D p uids (l1 ++ (k, par) :: l2) =
+         uid_pass D p uids l1 ++
+         {|
+           i_ref := di_label (D k);
+           i_parent := par;
+           i_class := di_class (D k);
+           i_name := di_name (D k);
+           i_props := bupd UNIQUE_ID (dp_fresh_uid p) (collect_props (di_props (D k)))
+         |} :: uid_pass D p uids' l2.
+Proof. exact uid_pass_replaced. Qed.
+
+Theorem C12_bin_uid_pass_no_collision :
+  forall (D : Z -> dinst) (p : dec_params) (l : list (Z * N)) (uids : list value),
+       NoDup (origs D l) ->
+       (forall v : value, In v (origs D l) -> ~ In v uids) ->
+       uid_pass D p uids l =
+       List.map
+         (fun kp : Z * N =>
+          {|
+            i_ref := di_label (D (fst kp));
+            i_parent := snd kp;
+            i_class := di_class (D (fst kp));
+            i_name := di_name (D (fst kp));
+            i_props := collect_props (di_props (D (fst kp)))
+          |}) l.
+Proof. exact uid_pass_no_collision. Qed.
+
+Theorem C12_bin_built_uids_unique_but_fresh :
+  forall (D : Z -> dinst) (p : dec_params) (F : list ztree), NoDup (nonfresh p (out_uids (built D p F))).
+Proof. exact built_uids_unique_but_fresh. Qed.
+
+Theorem C12_bin_built_uids_unique :
+  forall (D : Z -> dinst) (p : dec_params) (F : list ztree),
+       (forall a b c : list value, out_uids (built D p F) <> a ++ dp_fresh_uid p :: b ++ dp_fresh_uid p :: c) ->
+       NoDup (out_uids (built D p F)).
+Proof. exact built_uids_unique. Qed.
+
+Theorem C12_bin_built_uids_preserved :
+  forall (D : Z -> dinst) (p : dec_params) (F : list ztree),
+       NoDup (origs D (List.map qproj (bfs_all D F))) ->
+       built D p F =
+       List.map
+         (fun tp : ztree * N =>
+          {|
+            i_ref := lab D (zroot (fst tp));
+            i_parent := snd tp;
+            i_class := di_class (D (zroot (fst tp)));
+            i_name := di_name (D (zroot (fst tp)));
+            i_props := collect_props (di_props (D (zroot (fst tp))))
+          |}) (bfs_all D F).
+Proof. exact built_uids_preserved. Qed.
+
